@@ -11,7 +11,7 @@ propmap={
  'refusal of an ERROR':('C10','D22'),'UNREGISTER of a registration':('C03','D24'),'kill-mode canceled':('C02','D28'),'must not close a session':('C04','D5'),
  'malformed payload-passthru':('C17','D17'),'release reply slot':('C16','D20'),'acknowledged Publish that is not sent':('C16','D29'),'only Close() closes':('C17','D19'),'keep peers of shut-down':('C06','D14'),
  'call timeout timers':('C06','D4'),'after Router.Close fail cleanly':('C06','D3'),'realm that is being removed':('C06','D15'),
- 'spell wamp.subscription.count_subscribers':('C18','D25'),'loose URI check rejects':('C19','D27'),'a waiter that gave up':('C17','D18'),'ABORT sent from an invocation handler':('C17','D30'),'YIELD refused for payload-passthru':('C02','D31'),'results of meta procedures are not retried':('C07','D26'),'realm shutdown does not hang':('C06','D32'),'AddRealm on a router that has been closed':('C06','D33'),'one timeout timer per call':('C06','D34'),
+ 'spell wamp.subscription.count_subscribers':('C18','D25'),'loose URI check rejects':('C19','D27'),'a waiter that gave up':('C17','D18'),'ABORT sent from an invocation handler':('C17','D30'),'YIELD refused for payload-passthru':('C02','D31'),'results of meta procedures are not retried':('C07','D26'),'realm shutdown does not hang':('C06','D32'),'AddRealm on a router that has been closed':('C06','D33'),'one timeout timer per call':('C06','D34'),'sending its request when the connection ends':('C17','D35'),
 }
 kf['findings']=[f for f in kf['findings'] if f['status']=='known']
 for l in log:
